@@ -20,7 +20,10 @@ Record cfg := mkCfg {
   c_frender : option nat;   (* fault injection: the render call of the live renderable with this index raises *)
   c_fbuild : option nat;    (* Progress: the get_renderable() call (columns) with this index raises *)
   c_start_guarded : bool;   (* T3: Progress.start's refresh sits in a try that undoes hook/io/cursor *)
-  c_vis_unless_transient : bool  (* T3: Live.stop forces "visible" only when not transient *)
+  c_vis_unless_transient : bool; (* T3: Live.stop forces "visible" only when not transient *)
+  c_restores_ovf : bool;    (* T3: Live.stop puts the user's overflow mode back after its last refresh *)
+  c_resets_shape : bool;    (* T3: stop() forgets the shape it drew (so that a later start() erases nothing) *)
+  c_final_room : bool       (* T3: _LiveRender crops the last frame of a transient display to H-1 rows *)
 }.
 
 Record st := mkSt {
@@ -109,6 +112,8 @@ Definition set_flags (s : st) (b : bool) (h : nat) (r : bool) : st :=
   mkSt b h r (ovf_now s) (shape s) (cur s) (lr s) (nrender s) (nbuild s) (out s) (g_printed s) (g_shown s) (g_live s).
 Definition set_ovf (s : st) (o : ovf) : st :=
   mkSt (started s) (hooks s) (redir s) o (shape s) (cur s) (lr s) (nrender s) (nbuild s) (out s) (g_printed s) (g_shown s) (g_live s).
+Definition forget_shape (s : st) : st :=
+  mkSt (started s) (hooks s) (redir s) (ovf_now s) None (cur s) (lr s) (nrender s) (nbuild s) (out s) (g_printed s) (g_shown s) (g_live s).
 Definition set_cur (s : st) (f : list str) : st :=
   mkSt (started s) (hooks s) (redir s) (ovf_now s) (shape s) f (lr s) (nrender s) (nbuild s) (out s) (g_printed s) (g_shown s) (g_live s).
 Definition set_lr (s : st) (f : list str) : st :=
@@ -140,10 +145,15 @@ Definition settle (s : st) (keep : bool) : st :=
 Definition fault (f : option nat) (n : nat) : bool :=
   match f with Some k => (k =? n)%nat | None => false end.
 
-(* the lines the live renderable yields now, and the shape it records; None = it raised *)
+(* the height _LiveRender crops to: the page, or one row less for the frame that a transient
+   display draws when it is no longer started (stop() ends that frame with a new line) *)
+Definition max_height (c : cfg) (s : st) : Z :=
+  if c_final_room c && c_transient c && negb (started s) then Z.max (c_H c - 1) 0 else c_H c.
+
+(* the lines the live renderable yields now, and the shape it records *)
 Definition frame_lines (c : cfg) (s : st) : list str * (Z * Z) :=
   if c_progress c then progress_lines (c_W c) (shape s) (lr s)
-  else let ls := fit_live (ovf_now s) (c_W c) (c_H c) (cur s) in (ls, (maxw ls, zlen ls)).
+  else let ls := fit_live (ovf_now s) (c_W c) (max_height c s) (cur s) in (ls, (maxw ls, zlen ls)).
 
 (* Console.print of some lines / log / print(Control("")) with the render hooks applied:
    [position_cursor, user output, live renderable] rendered into ONE write; when a render raises
@@ -188,6 +198,10 @@ Definition start (c : cfg) (s : st) : st * bool :=
       else (s2, raised)
     else (s1, false).
 
+Definition after_refresh (c : cfg) (s sr : st) : st :=
+  if c_restores_ovf c then set_ovf sr (ovf_now s) else sr.
+Definition forget (c : cfg) (s : st) : st := if c_resets_shape c then forget_shape s else s.
+
 Definition stop (c : cfg) (s : st) : st * bool :=
   if negb (started s) then (s, false)
   else
@@ -195,12 +209,13 @@ Definition stop (c : cfg) (s : st) : st * bool :=
     let s1 := if c_progress c then s0
               else if c_vis_unless_transient c && c_transient c then s0
               else set_ovf s0 OVisible in
-    let '(s2, raised) := refresh c s1 in
+    let '(sr, raised) := refresh c s1 in
+    let s2 := after_refresh c s sr in                              (* inner finally: *)
     let s3 := if raised then s2 else emit s2 [NL] in             (* console.line() *)
     let s4 := emit (set_flags s3 false (pred (hooks s3)) false) cursor_on in   (* finally: *)
     if raised then (s4, true)
-    else if c_transient c then (settle (emit s4 (restore_cursor (shape s4))) false, false)
-    else (settle s4 true, false).
+    else if c_transient c then (forget c (settle (emit s4 (restore_cursor (shape s4))) false), false)
+    else (forget c (settle s4 true), false).
 
 Definition step (c : cfg) (s : st) (o : op) : st * bool :=
   match o with
@@ -233,4 +248,7 @@ Definition run_block (c : cfg) (f0 : list str) (pre : list (list str)) (body : l
 
 (* the configuration the code in /repo has today *)
 Definition cfg_today (progress transient : bool) (o : ovf) (W H : Z) (fr fb : option nat) : cfg :=
-  mkCfg progress transient o W H fr fb progress_start_guarded live_stop_visible_unless_transient.
+  mkCfg progress transient o W H fr fb progress_start_guarded live_stop_visible_unless_transient
+        live_stop_restores_overflow
+        (if progress then progress_stop_resets_shape else live_stop_resets_shape)
+        live_transient_final_room.
